@@ -3,10 +3,14 @@
    PROVED here (closed, every corpus within the limits, every batch size, every phrase, every slop):
      - the result has one entry per row (entries are naturals: non-negative whole numbers by type);
      - every matching document contains each of the phrase's terms.
+     - PARTIAL: a document containing the phrase exactly still matches with slop >= 1, PROVIDED the positions of the
+       phrase's terms in that document are pairwise distinct modulo 64 (e.g. every document of at most 64 tokens);
+       without that proviso the clause is FALSE for the model and the code (C15_exact_match_refuted, known finding
+       D27: a stale position bit shadows the term 64 positions further on).
    NOT proved (decided on generated inputs by the clause oracle Span/Span_Spec.v on model and implementation):
-     - a document containing the phrase exactly still matches with slop >= 1;
-     - distinct terms, length + slop <= 18: an in-order window of length + slop tokens matches. *)
-From SA Require Import Base.Prelude Index.Index Index.Index_Spec Span.Span Span.Span_Spec Span.Span_Proofs.
+     - distinct terms, length + slop <= 18: an in-order window of length + slop tokens matches (false on the same
+       inputs as D27). *)
+From SA Require Import Base.Prelude Index.Index Index.Index_Spec Span.Span Span.Span_Spec Span.Span_Proofs Span.Span_Exact2 Query.Phrase_Spec.
 Open Scope N_scope.
 
 Theorem C15_one_entry_per_row_partial : forall ix ts slop v,
@@ -19,6 +23,23 @@ Theorem C15_match_contains_every_term_partial : forall docs bs ix ts slop v d,
   (d < length v)%nat -> nth d v 0 <> 0 -> forall t, In t ts -> In t (nth d docs []).
 Proof. exact slop_match_has_all_terms. Qed.
 Print Assumptions C15_match_contains_every_term_partial.
+
+(* clause 1, partial: exact matches are kept when no two phrase-term positions of the document collide modulo 64 *)
+Theorem C15_exact_match_kept_partial : forall docs bs ix ts slop v d,
+  wf_docs docs -> index false bs docs = AOk ix -> 1 <= slop -> (2 <= length ts)%nat ->
+  slop_freqs ix ts slop = AOk v -> (d < length docs)%nat -> occ ts (nth d docs []) > 0 ->
+  no_alias64 ts (nth d docs []) -> (length ts <= 19)%nat ->
+  nth d v 0 <> 0.
+Proof. exact slop_keeps_exact_match_partial. Qed.
+Print Assumptions C15_exact_match_kept_partial.
+
+(* ... and FALSE without the proviso (the unchanged code violates clause 1 here: known finding D27; the witness is the
+   71-token document a@0 b@4 c@6 b@64 a@68 b@69 c@70, phrase a b c, slop 1, replayed on the implementation by the check) *)
+Theorem C15_exact_match_refuted :
+  exists docs bs ix ts slop v d,
+    wf_docs docs /\ index false bs docs = AOk ix /\ 1 <= slop /\ (2 <= length ts)%nat /\
+    slop_freqs ix ts slop = AOk v /\ (d < length docs)%nat /\ occ ts (nth d docs []) > 0 /\ nth d v 0 = 0.
+Proof. exact slop_loses_exact_match_refuted_repaired. Qed.
 
 Example C15_model_example :
   match index false 100 [[1;9;2;9;9;3];[1;2;3];[3;2;1];[1;2];[]] with
